@@ -323,8 +323,11 @@ func run(w http.ResponseWriter, r *http.Request, o *Obs, h *H) {
 	case "TRACE":
 		mux.Trace(w, r, false)
 	default:
+		kept := w.Header() // what a handler keeps when it writes `h := w.Header()` at its top
 		for _, s := range h.Prog {
 			switch s.Op {
+			case "KSet": // sets a header through the map obtained at the start of the handler
+				kept.Set(s.K, s.V)
 			case "WH":
 				w.WriteHeader(s.N)
 			case "W":
